@@ -252,6 +252,17 @@ prop(
     explanation="",
 )
 
+prop(
+    "C11",
+    contract_modules=["contracts.c11"],
+    bcc="c11",
+    level="other",
+    claimed=False,
+    trusted=["numpy.array-model"],
+    assumptions=["the Cython kernels whole_molecules / image_molecules (image_molecules.pxi) are outside the verifier's reach: bounded check only"],
+    explanation="",
+)
+
 # ---- stubs (filled in as the contracts are written) -------------------------------------------
 _BOUNDED_TEXT = ("Bounded contract check only at this commit: the property's contracts are evaluated at run time on the real code over the "
                  "enumerated input space stated in evidence (coverage.bounded); labelled bounded, nothing is counted as proved. "
